@@ -336,6 +336,7 @@ class Graph:
 
         if self._explicit_edges is not None:
             # Explicit mode: user-declared data edges
+            G.graph["explicit_edges"] = True
             self._add_explicit_data_edges(G, self._explicit_edges)
             self._add_control_edges(G, nodes)
             self._add_ordering_edges(G, nodes, output_to_source)
